@@ -49,6 +49,7 @@ struct Glob {
   const vf::Args* args;
   const char* call_marker;  // address inside the frame of the last Run::call
 };
+long live_blocks();          // blocks obtained from ::operator new and not yet released (c20_main.cc)
 extern Glob G;
 
 inline std::string itos(long long v) { return std::to_string(v); }
@@ -106,10 +107,13 @@ struct Run {
   bool capture_stdout; std::string cout_text;
   long oom_kcur; bool oom_more;
   bool stop_checks;
+  int extra_new;           // blocks the C call is expected to keep beyond the twin (a new iterator the twin has no use for)
+  long t_delta, c_delta, live_before, live_after;   // net ::operator new blocks of the twin operation / the C call
+  int base_rc, base_tcode;                          // OOM mode: outcome of the pass without injected failure
   std::string extra_trig, s1, s2;   // per tuple: trigger set by the stub, scratch results of the twin
   Run(const char* f, const char* p, const char* d, long long it, long long ss)
     : fname(f), pattern(p), dom(d), item(it), sub_start(ss), tuple(-1), ntuples(0), full(0), started(false), built(false),
-      tval(0), tcode(0), rc(0), escaped(false), hcalls(0), hcode(0), compared(0), capture_stdout(false), oom_kcur(0), oom_more(false) {}
+      tval(0), tcode(0), rc(0), escaped(false), hcalls(0), hcode(0), compared(0), capture_stdout(false), oom_kcur(0), oom_more(false), stop_checks(false), extra_new(0), t_delta(0), c_delta(0), live_before(0), live_after(0), base_rc(0), base_tcode(0) {}
   ~Run() { cleanup(); }
   void add(Arg* a, const char* pn) { a->pname = pn; args.push_back(a); }
 
@@ -119,7 +123,9 @@ struct Run {
   std::string input_json() const {
     std::vector<std::string> av;
     for (size_t i = 0; i < args.size(); ++i) av.push_back(vf::J().str("p", args[i]->pname).num("i", args[i]->cur).str("v", args[i]->show()).done());
-    return vf::J().str("fn", fname).num("tuple", tuple).arr("args", av).str("trig", trigger()).done();
+    vf::J j; j.str("fn", fname).num("tuple", tuple).arr("args", av).str("trig", trigger());
+    if (G.mode == MODE_OOM) j.num("oomk", oom_kcur);
+    return j.done();
   }
   std::string trigger() const {
     std::string t = extra_trig;
@@ -154,7 +160,7 @@ struct Run {
         prod = prod / cnt[big] * (cnt[big] - 1); --cnt[big];
       }
       ntuples = prod;
-      if (prod < full) vf::count(CNT_CAPPED);
+      if (prod < full && sub_start == 0) vf::count(CNT_CAPPED);
       if (G.mode == MODE_OOM && ntuples > G.oom_tuples) ntuples = G.oom_tuples;
     }
     cleanup();
@@ -185,7 +191,7 @@ struct Run {
       built = true;
       if (G.desc) { std::string d = input_json(); strncpy(G.desc, d.c_str(), 1500); G.desc[1500] = 0; }
     }
-    tcode = 0; tval = 0; rc = 0; escaped = false; hcalls = hcode = 0; twhat.clear(); escwhat.clear(); cout_text.clear(); extra_trig.clear(); s1.clear(); s2.clear();
+    tcode = 0; tval = 0; rc = 0; escaped = false; hcalls = hcode = 0; twhat.clear(); escwhat.clear(); cout_text.clear(); extra_trig.clear(); s1.clear(); s2.clear(); extra_new = 0;
     return true;
   }
 
@@ -193,6 +199,8 @@ struct Run {
   template <class F> void twin(F f) {
     if (G.mode == MODE_OOM && oom_kcur > 0) return;
     vf::RefGuard g;
+    long l0 = live_blocks();
+    struct D { long& d; long l0; ~D() { d = live_blocks() - l0; } } dd = {t_delta, l0};
     try { tval = f(); tcode = 0; }
     catch (const std::bad_alloc& e) { tcode = PPL_ERROR_OUT_OF_MEMORY; twhat = e.what(); }
     catch (const std::invalid_argument& e) { tcode = PPL_ERROR_INVALID_ARGUMENT; twhat = e.what(); }
@@ -212,10 +220,12 @@ struct Run {
     int saved = -1; FILE* tmp = 0;
     if (capture_stdout) { fflush(stdout); saved = dup(1); tmp = tmpfile(); dup2(fileno(tmp), 1); }
     if (G.mode == MODE_OOM) { G.alloc_count = 0; G.fail_at = oom_kcur; G.failed = false; G.armed = true; }
+    live_before = live_blocks();
     try { rc = f(); }
     catch (const std::exception& e) { G.armed = false; escaped = true; escwhat = std::string(typeid(e).name()) + ": " + e.what(); }
     catch (...) { G.armed = false; escaped = true; escwhat = "non-standard exception"; }
     G.armed = false;
+    live_after = live_blocks(); c_delta = live_after - live_before;
     if (capture_stdout) {
       fflush(stdout); dup2(saved, 1); close(saved);
       rewind(tmp); char buf[4096]; size_t n; while ((n = fread(buf, 1, sizeof buf, tmp)) > 0) cout_text.append(buf, n);
@@ -247,6 +257,9 @@ struct Run {
     if (escaped) { fail("oom:escaped-exception", "exception crossed the C boundary: " + escwhat, "PPL_ERROR_OUT_OF_MEMORY", det); return; }
     bool io = strstr(pattern, "print") || strstr(pattern, "ascii_dump") || strstr(pattern, "ascii_load");
     if (io && rc == PPL_STDIO_ERROR && hcalls == 0) return;   // the stream swallowed the exception and reported failure
+    // the call was failing anyway and the allocation that failed was the one of the error message
+    // (an ostream swallows exceptions): the original error is still reported
+    if (base_tcode != 0 && rc == base_tcode && hcalls == 1 && hcode == rc) return;
     if (rc != PPL_ERROR_OUT_OF_MEMORY) fail("oom:error-code", rcs(rc), rcs(PPL_ERROR_OUT_OF_MEMORY), det);
     else if (hcalls != 1 || hcode != PPL_ERROR_OUT_OF_MEMORY) fail("oom:handler", itos(hcalls) + " call(s), code " + rcs(hcode), "exactly 1 call with PPL_ERROR_OUT_OF_MEMORY", det);
   }
@@ -255,7 +268,7 @@ struct Run {
     vf::RefGuard g;
     if (G.mode == MODE_OOM) {
       if (oom_kcur > 0) { judge_oom(); tcode = PPL_ERROR_OUT_OF_MEMORY; return; }
-      oom_more = G.alloc_count > 0;
+      oom_more = G.alloc_count > 0; base_rc = rc; base_tcode = tcode;
     }
     vf::count(vf::CNT_TRANS);
     ++compared;
@@ -274,6 +287,9 @@ struct Run {
       }
       if (!ok) fail("capi:return-value", rcs(rc), exp, "C++ operation returned normally");
       if (rc < 0 && k != K_LOAD && k != K_INT) return;      // outputs are meaningless after a (wrong) error return
+      // the wrapper runs the same C++ code as the twin (which ran first and warmed every cache): it may not keep more memory
+      if (c_delta > t_delta + extra_new && G.mode == MODE_MAIN)
+        fail("life:leak", "the C call left " + itos(c_delta) + " more live ::operator new blocks", "at most " + itos(t_delta) + " (the C++ operation on the twin)");
     } else {
       vf::count(CNT_THROW);
       if (tcode <= -2 && tcode >= -12) vf::count(CNT_CODE0 + (-tcode));
@@ -955,7 +971,9 @@ struct Entry { const char* name; const char* pattern; const char* dom; void (*fn
 std::vector<Entry>& entries();
 std::vector<std::string>& unmatched();           // prototypes no rule matched: machinery error
 std::vector<std::string>& uncovered();           // prototypes deliberately not exercised ("name: reason")
+std::vector<Entry>& life_entries();               // generated create -> op -> delete sequences (mode life)
 std::vector<std::string>& manuals();             // prototypes exercised by hand-written scenarios of c20_main.cc
+struct LifeRegistrar { LifeRegistrar(const Entry* e, int n); };
 struct Registrar { Registrar(const Entry* e, int n, const char* const* um, int num, const char* const* uc, int nuc, const char* const* mn, int nmn); };
 
 } // namespace c20
